@@ -15,6 +15,7 @@
 //! | 104      | side                                      | side                                  | header word 0 |
 //! | 105      | side                                      | header bit 64 (word 1)                | side          |
 //! | 106      | side                                      | side                                  | side          |
+//! | 200      | side; object reference = object start + 8, size from `UNIT_OBJECT_SIZE` (C34)                    |
 //!
 //! The header of an object is at its address (`ref_to_header(o) == o`); objects are scratch
 //! memory supplied by the check.  `ObjectModel::copy` is the harness-supplied "copy" of C17: it
@@ -35,6 +36,13 @@ pub struct UnitVM<const P: usize>;
 /// Bit offsets of the one-bit specs for placements 0..=15.
 pub const ONE_BIT_OFFSETS: [isize; 16] = [0, 1, 2, 3, 4, 5, 6, 7, -1, -2, -3, -4, -5, -6, -7, -8];
 pub const P_SIDE: usize = 16;
+/// Placement 200: everything on side as in 16, but the object reference points `REF_OFFSET` bytes
+/// past the object start (a header word before the reference) and the object size is whatever
+/// the check put into `UNIT_OBJECT_SIZE` (C34, line marking).
+pub const P_REF_OFFSET: usize = 200;
+pub const REF_OFFSET: usize = 8;
+/// Placement 201: as 200 (size from `UNIT_OBJECT_SIZE`) but object reference = object start.
+pub const P_SIZED: usize = 201;
 pub const FWD_PLACEMENTS: [usize; 7] = [100, 101, 102, 103, 104, 105, 106];
 
 pub fn placement_name(p: usize) -> String {
@@ -130,6 +138,8 @@ pub struct CopyCtx {
 }
 
 thread_local! {
+    /// Size reported by `get_current_size` for placement `P_REF_OFFSET`.
+    pub static UNIT_OBJECT_SIZE: Cell<usize> = const { Cell::new(32) };
     /// Set by the scenario body before it calls `forward_object`.
     pub static COPY_CTX: Cell<*const CopyCtx> = const { Cell::new(std::ptr::null()) };
     /// Number of copies performed by this OS thread.
@@ -145,8 +155,8 @@ impl<const P: usize> ObjectModel<UnitVM<P>> for UnitVM<P> {
     #[cfg(feature = "pinning")]
     const LOCAL_PINNING_BIT_SPEC: VMLocalPinningBitSpec = pin_spec(P);
 
-    const UNIFIED_OBJECT_REFERENCE_ADDRESS: bool = true;
-    const OBJECT_REF_OFFSET_LOWER_BOUND: isize = 0;
+    const UNIFIED_OBJECT_REFERENCE_ADDRESS: bool = P != P_REF_OFFSET;
+    const OBJECT_REF_OFFSET_LOWER_BOUND: isize = if P == P_REF_OFFSET { REF_OFFSET as isize } else { 0 };
 
     fn copy(_from: ObjectReference, _semantics: CopySemantics, _copy_context: &mut GCWorkerCopyContext<UnitVM<P>>) -> ObjectReference {
         let p = COPY_CTX.with(|c| c.get());
@@ -165,7 +175,11 @@ impl<const P: usize> ObjectModel<UnitVM<P>> for UnitVM<P> {
         ObjectReference::from_raw_address(to).unwrap()
     }
     fn get_current_size(_object: ObjectReference) -> usize {
-        32
+        if P >= P_REF_OFFSET {
+            UNIT_OBJECT_SIZE.with(|c| c.get())
+        } else {
+            32
+        }
     }
     fn get_size_when_copied(_object: ObjectReference) -> usize {
         32
@@ -180,7 +194,11 @@ impl<const P: usize> ObjectModel<UnitVM<P>> for UnitVM<P> {
         unimplemented!()
     }
     fn ref_to_object_start(object: ObjectReference) -> Address {
-        object.to_raw_address()
+        if P == P_REF_OFFSET {
+            object.to_raw_address() - REF_OFFSET
+        } else {
+            object.to_raw_address()
+        }
     }
     fn ref_to_header(object: ObjectReference) -> Address {
         object.to_raw_address()
